@@ -40,7 +40,8 @@ def record_one(arg):
 
 def record_batch(seeds_families, procs=14):
     with Pool(processes=procs) as pool:
-        out = pool.map(record_one, seeds_families, chunksize=4)
+        # (a recorded run that never returns must not hang the check: generous budget, then a machinery failure)
+        out = pool.map_async(record_one, seeds_families, chunksize=4).get(timeout=1800 + len(seeds_families))
     return out
 
 
